@@ -490,8 +490,21 @@ fn slice_putres(a: &Args, t: &mut Trace) {
 
 fn main() {
     // panics are expected outcomes for some slices: keep stderr quiet
-    std::panic::set_hook(Box::new(|_| {}));
     let a = parse_args();
+    {
+        // a panic that cannot unwind (a panic while unwinding, or inside a Drop that runs during
+        // unwinding) aborts the process: the current case is saved first, in replay format, and the
+        // process exits with status 78 so that the run reports the history instead of a crash
+        let abort_path = format!("{}.abort", a.out);
+        std::panic::set_hook(Box::new(move |info| {
+            if !info.can_unwind() {
+                alloc::TRACK.store(false, std::sync::atomic::Ordering::Relaxed);
+                let text = runner::CUR.try_lock().map(|c| c.clone()).unwrap_or_default();
+                let _ = std::fs::write(&abort_path, text);
+                std::process::exit(78);
+            }
+        }));
+    }
     // watchdog: a call into the library that makes no progress for 20 s is a hang (a cyclic list, say);
     // the current case is written to <out>.hang in replay format and the process exits with status 77.
     // The thread neither allocates nor touches the ledger while the run is healthy.
